@@ -298,6 +298,7 @@ func runConcCore(t *testing.T, p *Plan, ns string) *Outcome {
 		}
 		ksSteps := map[int][]int{} // op -> steps at which it ran a keyspace step
 		changes := make([]int, len(p.Ops))
+		holding, holdDone, c0Locks := false, false, 0
 		lastData := hashString(DataString2(StripExpired(inst.DB.VerifDump(), nowMs(), false)))
 		for budget := 0; budget < 3000; budget++ {
 			parked := s.ParkedTasks()
@@ -316,6 +317,50 @@ func runConcCore(t *testing.T, p *Plan, ns string) *Outcome {
 				continue
 			}
 			tk, stuck := PickFair(parked, dice.Next(len(parked)), 300)
+			// directed plans (knob holdk): the first connection is stopped right before its (holdk+1)-th acquisition of
+			// the store lock and stays there while the other connections run their commands to the end - the widest
+			// window between two critical sections of one command that any schedule can open
+			if hk := int(p.K("holdk")); hk > 0 && !holdDone {
+				isC0 := func(t *Task) bool {
+					if i, ok := taskOp[t]; ok {
+						return p.Ops[i].C%nclients == 0
+					}
+					return cs[0].TCP && strings.HasSuffix(t.Name, cs[0].Name)
+				}
+				if !holding {
+					for _, t := range parked {
+						if isC0(t) && isLockSite(t.Site) && c0Locks == hk {
+							holding = true
+						}
+					}
+				}
+				if holding {
+					var others []*Task
+					for _, t := range parked {
+						if !isC0(t) {
+							others = append(others, t)
+						}
+					}
+					if len(others) == 0 {
+						started := false
+						for c := 1; c < nclients; c++ {
+							if next[c] > 0 && next[c] < len(perClient[c]) && ops[perClient[c][next[c]-1]].done {
+								startNext(c)
+								started = true
+							}
+						}
+						if started {
+							continue
+						}
+						holding, holdDone = false, true
+					} else {
+						tk, stuck = PickFair(others, dice.Next(len(others)), 300)
+					}
+				}
+				if isC0(tk) && isLockSite(tk.Site) {
+					c0Locks++
+				}
+			}
 			s.noteChoice(len(parked), tk.Site)
 			if stuck {
 				panicSig = ns + "/livelock/" + tk.Site
